@@ -167,8 +167,21 @@ func genCRSTree(r *rand.Rand, nRa int) *crsTree {
 		"tests/regression/tests/REQUEST-920-X/9209990.yaml":     "  - test_id: 7\n",
 		"tests/regression/tests/REQUEST-920-X/920998.yaml.orig": "  - test_id: 7\n",
 		"tests/regression/README.md":                            "test_id: 3\n",
-		"docs/conf.txt":                                         "# OWASP CRS ver.3.0.0\n",
-		"util/example.conf.disabled":                            "# OWASP CRS ver.3.0.0\n",
+		// near misses of the three file-name tests: a character where the dot belongs, text after the extension
+		"tests/regression/tests/REQUEST-920-X/920997-yaml":  "  - test_id: 7\n\n\n",
+		"tests/regression/tests/REQUEST-920-X/920996_yml":   "  - test_id: 7\n  - test_title: 920996-9\n",
+		"tests/regression/tests/REQUEST-920-X/920995.yamlx": "  - test_id: 7\n",
+		"tests/regression/tests/REQUEST-920-X/920994.yml~":  "  - test_id: 7\n",
+		"tests/regression/tests/REQUEST-920-X/x920993.yaml": "  - test_id: 7\n",
+		"regex-assembly/942101xra":                          "  foo  \n",
+		"regex-assembly/942102.rax":                         "  foo  \n",
+		"regex-assembly/include/words-ra":                   "  foo  \n",
+		"rules/fooconf":                                     "# OWASP CRS ver.3.0.0\n",
+		"rules/bar.confx":                                   "# OWASP CRS ver.3.0.0\n",
+		"rules/baz.conf.rej":                                "# OWASP CRS ver.3.0.0\n",
+		"docs/crs-setup-example":                            "# OWASP CRS ver.3.0.0\n",
+		"docs/conf.txt":                                     "# OWASP CRS ver.3.0.0\n",
+		"util/example.conf.disabled":                        "# OWASP CRS ver.3.0.0\n",
 	}
 	for p, c := range decoys {
 		ct.t[p] = []byte(c)
